@@ -384,6 +384,16 @@ def run(rep, repo, tier):
       if n % 97 == 1:
         rep.sample({"config": cfg, "train_value_set": repr(got),
                     "declared": repr(codes)})
+  # R7: "with stochastic rounding enabled" is a statement about the object's
+  # current options: switching use_stochastic_rounding on a live quantizer
+  # gives the stochastic / deterministic quantizer (rule shared with C09 R8)
+  from . import c09
+  mod9 = repo.module(quant.QMOD)
+  rep.extra["late_switches_checked"] = c09.rule_live_options(
+      rep, repo, mod9, [c for c in qref.ALL_QUANTIZERS
+                        if "use_stochastic_rounding" in c09.ALTS[c][1]],
+      rule="R7", only=("use_stochastic_rounding",))
+  rep.require_instances("R7", 12)
   rep.extra["configuration_points"] = n
   rep.require_instances("R1", 1000)
   rep.require_instances("R2", 300)
